@@ -106,11 +106,11 @@ pub fn def(ctx: &Ctx) -> PropDef {
         let steps = prop_oneof![3 => Just(1usize), 4 => 2usize..=16, 3 => 17usize..=300, 1 => 301usize..=5000];
         subs.push(PSub::boxed(
             format!("stream/{}", ty.name()),
-            t.pick(3000, 200_000),
+            t.pick(10_000, 1_000_000),
             move || (gens::seed_for(ty, zero_ok), steps.clone()).prop_map(move |(seed, steps)| StreamCase { ty, seed, steps }).boxed(),
             check_stream,
         ));
-        let long = t.pick(20_000usize, 2_000_000);
+        let long = t.pick(50_000usize, 5_000_000);
         subs.push(PSub::boxed(
             format!("long/{}", ty.name()),
             t.pick(20, 60),
@@ -120,7 +120,7 @@ pub fn def(ctx: &Ctx) -> PropDef {
     }
     subs.push(PSub::boxed(
         "splitmix-mix4",
-        t.pick(3000, 200_000),
+        t.pick(10_000, 1_000_000),
         || (gens::seed_for(Ty::SplitMix64, true), proptest::collection::vec(any::<bool>(), 1..60)).prop_map(|(seed, calls)| MixCase { seed, calls }).boxed(),
         check_splitmix_mix,
     ));
